@@ -411,7 +411,13 @@ impl<'a> Gen<'a> {
         let path = self.script_path(kind);
         b.attrs.push(("check-lua".into(), path));
         b.attrs.push(("x-tok".into(), tok.clone()));
-        let ret = if clean || self.rng.chance(1, 2) { "nil" } else { "str" };
+        let ret = if clean || self.rng.chance(1, 2) {
+            "nil"
+        } else if self.rng.chance(1, 6) {
+            "empty"
+        } else {
+            "str"
+        };
         b.attrs.push(("x-ret".into(), ret.into()));
         if self.rng.chance(1, 4) {
             let p = *self.rng.pick(model::CONTENT_PATTERNS);
